@@ -186,6 +186,13 @@ impl<'a> AggGen<'a> {
         let numeric = matches!(&agg, E::Agg(n, _, _) if ["COUNT", "SUM"].contains(&n.as_str()));
         let count = matches!(&agg, E::Agg(n, _, _) if n == "COUNT");
         // wrappers whose result depends on the type of the aggregate's value, not only on its number
+        // a ratio whose denominator is an aggregate (zero for some prefixes of the input only: an error then, a value later)
+        if matches!(&agg, E::Agg(n, _, _) if ["SUM", "COUNT"].contains(&n.as_str())) && t.chance(1, 12) {
+            return match t.draw(2) {
+                0 => E::bin(BinOp::Div, E::Int(100), agg),
+                _ => E::bin(BinOp::Div, E::Int(100), E::bin(BinOp::Sub, agg, E::Int(t.range(1, 2)))),
+            };
+        }
         let mixed_arg = matches!(&agg, E::Agg(_, _, args) if matches!(args.first(), Some(E::Case(_, _))));
         if matches!(&agg, E::Agg(n, _, _) if ["SUM", "AVG", "MIN", "MAX", "COUNT"].contains(&n.as_str())) && t.chance(1, if mixed_arg { 2 } else { 8 }) {
             let summing = matches!(&agg, E::Agg(n, _, _) if ["SUM", "AVG", "COUNT"].contains(&n.as_str()));
